@@ -36,7 +36,11 @@ RULE = ("corpus, then the definition-time table COMPLETELY (api incl. attrs.froz
         "preset or unset. Multiple inheritance: any non-root class may get a second direct base, a fresh plain mixin with empty "
         "__slots__ or with a __dict__, before or after the chain parent (systematic block: hooked/unhooked base x hook-less/"
         "hooked subclass x slots x mixin kind x order x {leaf, one level up, below a plain class} x redefinition incl. a redefined "
-        "setters.frozen field; random chains: 25% of classes). Hooks returning None and callable-but-falsy hook objects (bare, in lists, in nested pipes, at field and class level) are among the hook identities. Hook expressions are TREES: an on_setattr value is a bare callable or a "
+        "setters.frozen field; random chains: 25% of classes). A block of class-level lists/tuples/pipes of the stock hooks in EVERY order and multiplicity (length 1..3) x api x slots x "
+        "field with converter+validators / only one / none (the validator's argument, raw or converted, is in the trace). Assigned "
+        "values also come from classes of EQUAL but distinguishable objects (1 / 1.0 / True, 0.0 / -0.0, a str and a str-subclass "
+        "instance, two equal distinct lists) assigned one after the other to the same name (half of the names of every chain): the "
+        "observation canonicalises by exact type and identity, never by ==. Hooks returning None and callable-but-falsy hook objects (bare, in lists, in nested pipes, at field and class level) are among the hook identities. Hook expressions are TREES: an on_setattr value is a bare callable or a "
         "list/tuple/setters.pipe(...) whose members are setters or again setters.pipe(...) objects, nested at every position "
         "(first / middle / last, followed or not by further hooks) to depth <=4, with empty pipes, the same hook object and the "
         "same pipe object repeated, built-in setters and setters.frozen inside nested pipes (17 fixed shapes in the systematic "
@@ -177,7 +181,8 @@ def cls_ons(h):
             lst("convert", "validate"), lst("validate"), lst("convert"), lst(), lst(U(h), "frozen"), lst("validate", U(h)),
             lst("convert", U(h), "validate"), bare(U(NONE_HOOK + h % 50)), lst(P(U(h), "convert"), U(h + 1)),
             lst(U(h), P("convert", "validate"), U(h + 1)), lst(P(P("convert", "validate"), U(h)), U(h + 1)),
-            {"hook": {"h": P("validate")}}, bare(U(FALSY_BOOL + h % 90)), bare(U(FALSY_LEN + h % 90)),
+            {"hook": {"h": P("validate")}}, lst("validate", "convert"), lst("validate", "validate"), lst("convert", "convert"),
+            lst("validate", "convert", "validate"), lst("convert", "validate", "convert"), bare(U(FALSY_BOOL + h % 90)), bare(U(FALSY_LEN + h % 90)),
             lst(U(FALSY_LEN + h % 90), "convert"), lst(P(U(FALSY_BOOL + h % 90)), U(h))]
 
 
@@ -327,6 +332,19 @@ def systematic_chains():
                                 cs["api"] = "frozen"
                             classes.append(cs)
                             yield "deftable", retag(classes)
+    # class-level lists/tuples/pipes of the stock hooks in EVERY order and multiplicity (length 1..3), on classes whose field
+    # has a converter and validators (the validator's argument -- raw or converted -- is in the trace), only one, or none
+    for k in (1, 2, 3):
+        for combo in itertools.product(("convert", "validate"), repeat=k):
+            for define, slots in itertools.product((False, True), (False, True)):
+                for form in ("list", "tuple", "pipe"):
+                    for conv, nv in (("c11", 2), ("plain", 0), (None, 1), (None, 0)):
+                        cs = mk_attrs(0, [mk_field("x", 0, "unset", conv, nv), mk_field("y", 0, "unset", "c10", 1)],
+                                      define=define, slots=slots, cls_on=lst(*combo))
+                        cs["on_form"] = form
+                        if not define and form == "pipe":
+                            cs["api"] = "make_class"
+                        yield "stock", [cs]
     # decorator-object reuse: the decorator object is first applied to 1-2 other classes (below frozen / hooked / plain
     # bases, with own __setattr__, with/without converters and validators)
     priors = [[p] for p in PRIOR_KINDS] + [[p1, p2] for p1 in PRIOR_KINDS[:3] for p2 in PRIOR_KINDS]
@@ -458,6 +476,17 @@ def cases_for_chain(classes, rng, tier, budget):
         yield from _with_faults(mk_case(classes, [(nm, val)], None, preset, True),
                                 all_kinds=(tier == "thorough" and rng.random() < 0.3), rng=rng)
         yield mk_case(classes, [(nm, val)], None, preset, False)
+    # equal-but-distinguishable values assigned one after the other to the same name (1 / 1.0 / True, 0.0 / -0.0, a str and
+    # a str-subclass instance, two equal distinct lists): the stored object must be the chain's result -- exact type and
+    # identity -- although an EQUAL value is already held
+    for nm in names:
+        if rng.random() < (0.5 if tier == "quick" else 0.8):
+            cls_ = list(rng.choice(cb.EQ_CLASSES))
+            rng.shuffle(cls_)
+            hist = [(nm, v) for v in cls_[:3]]
+            if rng.random() < 0.3:
+                hist.append((nm, cls_[0]))
+            yield from _with_faults(mk_case(classes, hist, None, rng.random() < 0.5, rng.random() < 0.85), rng=rng)
     if tier == "thorough" and len(names) <= 3 and rng.random() < 0.3:
         hists = [list(h) for k in (2, 3) for h in itertools.product(names, repeat=k)]
     else:
@@ -490,11 +519,11 @@ def gen_cases(tier, rng):
     if tier == "quick":
         by_label = {}
         for lab, ch in sys_chains:
-            by_label.setdefault(lab if lab in ("single", "deftable", "deco") else "mi" if lab.startswith("mi:") else "shape",
+            by_label.setdefault(lab if lab in ("single", "deftable", "deco", "stock") else "mi" if lab.startswith("mi:") else "shape",
                                 []).append(ch)
         picked = []
         for lab, chs in by_label.items():
-            k = {"single": 220, "deftable": 120, "shape": 240, "mi": 260, "deco": 120}[lab]
+            k = {"single": 200, "deftable": 110, "shape": 220, "mi": 230, "deco": 110, "stock": 170}[lab]
             picked += rng.sample(chs, min(k, len(chs)))
         rng.shuffle(picked)
         sys_iter = picked
@@ -585,7 +614,8 @@ def dist(case, obs):
         "mixin": ",".join(sorted({("none" if c.get("mixin") is None else ("slots" if c["mixin"] else "dict") +
                                   ("-first" if c.get("mixin_first", True) else "-second")) for c in cl})),
         "values": ",".join(sorted({"None" if a["value"] == "None" else "empty" if a["value"] == "" else
-                                   "held" if a["value"].startswith("i.") else "token" for a in case["history"]})),
+                                   "held" if a["value"].startswith("i.") else
+                                   "eq" if a["value"].startswith("eq:") else "token" for a in case["history"]})),
         "rv": case["runValidators"], "preset": case["preset"],
         "exc": ",".join(excs) or "none",
         "defErr": "none" if not isinstance(obs, dict) or obs.get("defErr") is None else f"cls{obs['defErr'][0]}:{obs['defErr'][1]}",
